@@ -347,6 +347,13 @@ pub fn verify(verifier_bytes: &[u8], proof_bytes: &[u8], pi: &[Fr], version: Ver
 }
 
 pub fn verify_parsed(vf: &RefVerifier, pf: &RefProof, pi: &[Fr], version: Version) -> Verdict {
+    verify_parsed_with_u(vf, pf, pi, version, None)
+}
+
+/// `u_override`: evaluate the equation with a batching challenge u that is *not* the transcript's
+/// (only used by the harness to check that a forgery it constructs is the one it means to
+/// construct: balanced for the old u, hence rejected only because u is bound to the openings).
+pub fn verify_parsed_with_u(vf: &RefVerifier, pf: &RefProof, pi: &[Fr], version: Version, u_override: Option<Fr>) -> Verdict {
     if pi.len() != vf.pi_rows.len() {
         return Verdict::Reject("public-input length");
     }
@@ -354,7 +361,10 @@ pub fn verify_parsed(vf: &RefVerifier, pf: &RefProof, pi: &[Fr], version: Versio
         Some(d) => d,
         None => return Verdict::BadVerifier("no evaluation domain for n"),
     };
-    let ch = challenges(vf, pf, pi, version);
+    let mut ch = challenges(vf, pf, pi, version);
+    if let Some(u) = u_override {
+        ch.u = u;
+    }
     let e = &pf.evals;
     let (a, b, c, d) = (e[0], e[1], e[2], e[3]);
     let (a_w, b_w, d_w) = (e[4], e[5], e[6]);
